@@ -62,6 +62,12 @@ def markers(isa, style):
     return [mv[0]] + sep, [mv[1]] + sep
 
 
+# scalar integer x86 code with hexadecimal numbers: no register name in it tells the ISA apart (files of this kind
+# are analysed without --arch: the ISA is guessed, found wrong on parsing, and the other parser takes over)
+GPR_ONLY = ["movq 0x10(%rsi), %rcx", "addq $0x18, %rcx", "imulq %rcx, %rdx", "movq %rdx, 0x20(%rdi)", "addq $8, %rsi",
+            "subq $1, %r9", "leaq 0x8(%rsi,%rcx,8), %r10", "cmpq %r9, %rdx", "xorl %eax, %eax", "incq %r11"]
+
+
 @st.composite
 def cases(draw, isa, archs, kernels):
     name, _, lines = draw(st.sampled_from(kernels))
@@ -71,11 +77,18 @@ def cases(draw, isa, archs, kernels):
     body = [l for l in body if not l.startswith(".byte")]
     if not body or body[0].startswith("."):
         body = ["nop"] + body if isa == "x86" else ["mov x9, x10"] + body
+    noarch = isa == "x86" and draw(st.integers(0, 4)) == 0
+    if noarch:
+        name = "gpr-only"
+        body = [draw(st.sampled_from(GPR_ONLY)) for _ in range(draw(st.integers(2, 8)))]
 
     def side():
         out = []
         for _ in range(draw(st.integers(0, 4))):
-            out.append(draw(st.sampled_from(DECOYS[isa] + PLAIN[isa] + PLAIN[isa])))
+            pool = DECOYS[isa] + PLAIN[isa] + PLAIN[isa]
+            if noarch:
+                pool = [d for d in pool if "xmm" not in d] + GPR_ONLY[:4]
+            out.append(draw(st.sampled_from(pool)))
         return out
 
     pro, epi = side(), side()
@@ -98,7 +111,7 @@ def cases(draw, isa, archs, kernels):
             ["# noise" if isa == "x86" else "// noise", ".Lnoise%d:" % draw(st.integers(0, 3)), ".p2align 4", "",
              "   "]))])
     return {"isa": isa, "arch": draw(st.sampled_from(archs)), "kernel": name, "body": body, "pro": pro, "epi": epi,
-            "order": draw(st.sampled_from([0, 0, 1, 2, 3, 5])),
+            "order": draw(st.sampled_from([0, 0, 1, 2, 3, 5])), "noarch": noarch,
             "style": style, "blank": draw(st.sampled_from([0, 0, 1, 3, 996, 1200, 4900])),
             "cuts": cuts, "seps": seps, "noise": noise, "fixed": draw(st.booleans())}
 
@@ -155,6 +168,8 @@ def check_case(case):
         raise Violation("line-range:" + isa, "--lines %r expands to the wrong line set" % lines_arg, list(rng), body_nos)
     # analyses of the three variants + noise
     base = ["--arch", case["arch"], "--lcd-timeout", "-1"] + (["--fixed"] if case["fixed"] else [])
+    if case.get("noarch"):
+        base = base[2:]  # no --arch: default model of the guessed ISA, the same for all variants of this file
 
     def analyse(argv, text, what):
         out, _, _ = guard(cli.run_inprocess, argv, text, what="osaca %s (%s)" % (" ".join(argv), what))
@@ -195,6 +210,8 @@ def check_case(case):
         cl.append("lines-range+single")
     if order and len(pieces) > 1:
         cl.append("lines-entries-not-ascending")
+    if case.get("noarch"):
+        cl.append("no---arch:scalar-integer-x86")
     return {"nontrivial": nt, "classes": cl, "key": [code, lines_arg, case["noise"], case["arch"], case["fixed"]],
             "sample": {"arch": case["arch"], "file": [l for l in lines if l][:14], "lines_arg": lines_arg,
                        "first_body_line": first_body, "noise": case["noise"]}}
